@@ -1259,14 +1259,9 @@ class LangServer:
                 {"uri": uri, "diagnostics": diag_results},
             )
         elif diag_exp is not None:
-            self.conn.write_error(
-                -1,
-                code=-32603,
-                message=str(diag_exp),
-                data={
-                    "traceback": traceback.format_exc(),
-                },
-            )
+            # didOpen/didSave are notifications: there is no request to answer, so
+            # report the failure to the user instead of sending a response with id -1
+            self.post_message(f"Diagnostics failed for '{uri}': {diag_exp}")
 
     def get_diagnostics(self, uri: str):
         filepath = path_from_uri(uri)
